@@ -517,8 +517,8 @@ func checkFlushOrder(c *Ctx, rule string) {
 				c.fail(rule, pf.ID+":PutRes.Written", p.Pos(cl.Pos()), "PutRes.Written is not set")
 			}
 			checkLitFields(c, rule, pf, cl, pf.ID+":PutRes", map[string]string{
-				"Key":     "recv.writer().Flush()#0",
-				"Keys":    "recv.writer().Flush()#1",
+				"Key":  "recv.writer().Flush()#0",
+				"Keys": "recv.writer().Flush()#1",
 			}, "the reported size/key would not describe what was stored")
 		}
 		c.check(okLit, rule, pf.ID+":PutRes", p.Pos(pf.Decl.Pos()), "Put returns a populated PutRes", "Put no longer returns a PutRes with Key/Keys/Written")
